@@ -439,6 +439,7 @@ func checkC04(c *ev.Ctx) {
 		j := jobs[i]
 		s := j.seed
 		id := fmt.Sprintf("%s:%s:%d:%d", s.ID, j.kind, j.arg, j.bi)
+		noteCase(id)
 		if !want(c, id) {
 			return
 		}
